@@ -131,7 +131,19 @@ class LoopSpec:
     after the loop the invariant and the negated condition are assumed."""
 
     def __init__(self, invariant, havoc, name="loop_invariant"):
-        self.invariant, self.havoc, self.name = invariant, havoc, name
+        self.name = name
+
+        def guarded(fn, what):
+            # the hand-written invariants read frame locals under the names the code uses: when the code no longer has them
+            # (a rename, a restructured loop) the contract does not fit -- undecided, never a crash and never a violation
+            def call(interp, fr, *a):
+                try:
+                    return fn(interp, fr, *a)
+                except (KeyError, AttributeError, TypeError, IndexError) as e:
+                    raise Unsupported(f"{what} of `{name}` does not fit the loop as it is written now ({type(e).__name__}: {e})") from e
+            return call
+
+        self.invariant, self.havoc = guarded(invariant, "the invariant"), guarded(havoc, "the havoc list")
 
     def run(self, interp, st, fr, rng, target):
         ctx = interp.ctx
